@@ -121,7 +121,34 @@ pub fn gen_op_case(t: &mut Tape) -> OpCase {
         1 => t.below(3000) as u64,
         _ => t.below(100000) as u64,
     };
-    OpCase { op, args: d, flags: t.word() & crate::util::F_ALL, max_cost }
+    let mut flags = t.word() & crate::util::F_ALL;
+    // the operand-size limits of LIMITS (256 bytes for modpow, 2048 / 1024 for the division operators) against the
+    // cost check: operands just around the limits, the flag set, every kind of budget
+    if t.chance(1, 6) {
+        flags |= crate::util::F_LIMITS;
+        flags &= !crate::util::F_NEW_COST;
+        let lim: usize = if op == 3 { 256 } else { *t.pick(&[1024usize, 2048]) };
+        let mut d2 = Dag::new();
+        let mut it = Vec::new();
+        let big = t.below_usize(want);
+        for k in 0..want {
+            let len = if k == big { lim - 1 + t.below_usize(3) } else { 1 + t.below_usize(40) };
+            let mut b = t.bytes(len);
+            if let Some(x) = b.first_mut() {
+                *x = (*x & 0x7f) | 1;
+            }
+            it.push(d2.atom(&b));
+        }
+        d2.list(&it);
+        let max_cost = match t.below(4) {
+            0 => 0,
+            1 => t.below(2000) as u64,
+            2 => t.below(3_000_000) as u64,
+            _ => u64::MAX,
+        };
+        return OpCase { op, args: d2, flags, max_cost };
+    }
+    OpCase { op, args: d, flags, max_cost }
 }
 
 pub fn test_prog(c: &ProgCase) -> Verdict {
